@@ -68,7 +68,101 @@ pub fn run(ctx: &Ctx) -> Outcome {
     });
     util::remove_dir(&root);
     crate::checks::extreme::lane(ctx, &mut out, "C06");
+    let histories: u64 = if ctx.thorough { 14 * 20_000 } else { 8_000 };
+    for idx in ctx.my_cases(histories) {
+        let mut rng = ctx.rng("C06-buffer", idx);
+        buffer_history(ctx, &mut out, &mut rng, idx);
+    }
     out
+}
+
+/// Lane BUFFER-MODEL: the write buffer against a list model. Random histories of append (with and without a
+/// WAL sequence number), take (with sequence numbers) and prepend (what a failed flush puts back); after every
+/// step the buffered batches (identified by their row ids), their sequence numbers, the row and batch counts
+/// must equal the model's, take must hand out everything in order and leave the buffer empty.
+fn buffer_history(ctx: &Ctx, out: &mut Outcome, rng: &mut Rng, idx: u64) {
+    use cardinalsin::ingester::WriteBuffer;
+    let mut buf = WriteBuffer::new();
+    let mut model: Vec<(Vec<i64>, u64)> = vec![]; // (row ids of the batch, seq)
+    let mut held: Vec<(Vec<arrow_array::RecordBatch>, Vec<u64>, Vec<(Vec<i64>, u64)>)> = vec![]; // taken, not yet put back
+    let mut next_id = idx as i64 * 10_000;
+    let mut next_seq = 1u64;
+    let mut trace: Vec<String> = vec![];
+    let n = 4 + rng.usize(14);
+    let bad = |out: &mut Outcome, sig: &str, what: String, trace: &Vec<String>| {
+        out.violation(&format!("C06/buffer/{}", sig), &format!("after {:?}: {}", trace, what), json!({"lane": "buffer-model", "history": idx, "seed": ctx.seed}));
+    };
+    for _ in 0..n {
+        match rng.below(10) {
+            0..=4 => {
+                let k = 1 + rng.usize(4);
+                let rows: Vec<RowSpec> = (0..k)
+                    .map(|_| {
+                        next_id += 1;
+                        RowSpec { id: next_id, ts: 1_700_000_000_000_000_000 + next_id, metric: "m".into(), host: Some("h".into()), value: 1.0 }
+                    })
+                    .collect();
+                let ids: Vec<i64> = rows.iter().map(|r| r.id).collect();
+                let b = rows::make_batch(SchemaKind::B, &rows);
+                let seq = if rng.chance(1, 5) {
+                    0
+                } else {
+                    next_seq += 1;
+                    next_seq
+                };
+                let r = if seq == 0 { buf.append(b) } else { buf.append_with_seq(b, seq) };
+                trace.push(format!("append({:?}, seq {})", ids, seq));
+                if r.is_err() {
+                    bad(out, "append-refused", "append returned an error".into(), &trace);
+                    return;
+                }
+                model.push((ids, seq));
+            }
+            5 | 6 => {
+                let (batches, seqs) = buf.take_with_seqs();
+                trace.push("take".into());
+                let got: Vec<(Vec<i64>, u64)> = batches.iter().map(rows::ids_of).zip(seqs.iter().cloned()).collect();
+                if got != model || batches.len() != seqs.len() {
+                    bad(out, "take-differs-from-what-was-buffered", format!("take returned {:?}, buffered were {:?}", got, model), &trace);
+                    return;
+                }
+                if !buf.is_empty() || buf.row_count() != 0 || buf.batch_count() != 0 {
+                    bad(out, "take-left-something-behind", format!("after take: rows {} batches {}", buf.row_count(), buf.batch_count()), &trace);
+                    return;
+                }
+                if !batches.is_empty() {
+                    held.push((batches, seqs, std::mem::take(&mut model)));
+                }
+                model.clear();
+            }
+            _ => {
+                // a failed flush puts its batches back in front
+                if let Some((batches, seqs, mut m)) = held.pop() {
+                    trace.push(format!("prepend({} batches)", batches.len()));
+                    buf.prepend(batches, seqs);
+                    m.append(&mut model);
+                    model = m;
+                }
+            }
+        }
+        out.eval();
+        let want_rows: usize = model.iter().map(|m| m.0.len()).sum();
+        if buf.row_count() != want_rows || buf.batch_count() != model.len() || buf.is_empty() != model.is_empty() {
+            bad(out, "counts-differ-from-model", format!("rows {} (model {}), batches {} (model {})", buf.row_count(), want_rows, buf.batch_count(), model.len()), &trace);
+            return;
+        }
+    }
+    // final take: everything, in order
+    let (batches, seqs) = buf.take_with_seqs();
+    let got: Vec<(Vec<i64>, u64)> = batches.iter().map(rows::ids_of).zip(seqs.iter().cloned()).collect();
+    if got != model {
+        bad(out, "take-differs-from-what-was-buffered", format!("final take returned {:?}, buffered were {:?}", got, model), &trace);
+        return;
+    }
+    out.count("buffer_model.histories", 1);
+    if trace.iter().any(|t| t.starts_with("prepend")) {
+        out.nontrivial(hash_str(&format!("buffer|{:?}", trace)));
+    }
 }
 
 async fn one_round(ctx: &Ctx, out: &mut Outcome, rng: &mut Rng, idx: u64, root: &str) {
